@@ -57,6 +57,7 @@ def _make_function(fname):
 
 
 FUNCS = ["echo", "need", "slack"]
+SETKW = ["osf"]          # options a user may write into the public attribute Diagnostic.kwargs of ONE instance
 
 
 # ----------------------------------------------------------------------------------------------
@@ -187,6 +188,7 @@ class State:
         self.insts = []          # real Diagnostic objects
         self.adf = []            # model bookkeeping: add_default_functions flag per instance
         self.regs = []           # model bookkeeping: custom registrations per instance (names in order)
+        self.ikw = []            # model bookkeeping: options the user wrote into the public attribute inst.kwargs
         self.nets = nets()
         self.last = None
 
@@ -232,14 +234,14 @@ def _record(diag, res):
 _REF = {}
 
 
-def ref_key(kind, adf, regs, kwname, nhash):
-    return json.dumps([kind, adf, list(regs), kwname, nhash])
+def ref_key(kind, adf, regs, kwname, nhash, ikw=()):
+    return json.dumps([kind, adf, list(regs), kwname, nhash, list(ikw)])
 
 
-def reference(kind, adf, regs, kwname, net):
+def reference(kind, adf, regs, kwname, net, ikw=()):
     """result of the call on a fresh instance with the same registrations, pristine module defaults, same net
     content, same keyword arguments.  Memoised per (kind, registrations, kwargs, net content)."""
-    key = ref_key(kind, adf, regs, kwname, net_hash(net))
+    key = ref_key(kind, adf, regs, kwname, net_hash(net), ikw)
     if key not in _REF:
         m = copy.deepcopy(_PRISTINE)
         install({"df_args": m["args"], "dd_args": m["args"], "df_funcs": m["funcs"], "dd_funcs": m["funcs"]})
@@ -251,6 +253,8 @@ def reference(kind, adf, regs, kwname, net):
             d = Diagnostic(add_default_functions=adf)
             for f in regs:
                 d.register_function(*_make_function(f))
+            for k in ikw:            # the instance's own persistent options (public attribute)
+                d.kwargs.update(KW[k])
             _REF[key] = _record(d, _call(lambda: d.diagnose_network(n, report_style=REPORT.get(kwname), **kw)))
     return _REF[key]
 
@@ -263,17 +267,18 @@ def all_reference_configs(max_regs, kwnames, legacy_kw):
             for regs in itertools.permutations(FUNCS, r):
                 for kwname in kwnames:
                     for j in (0, 1):
-                        cfgs.append(["diag", adf, list(regs), kwname, j])
+                        for ikw in ([], list(SETKW)):
+                            cfgs.append(["diag", adf, list(regs), kwname, j, ikw])
     for kwname in legacy_kw:
         for j in (0, 1):
-            cfgs.append(["legacy", True, [], kwname, j])
+            cfgs.append(["legacy", True, [], kwname, j, []])
     return cfgs
 
 
 def compute_reference(cfg):
-    kind, adf, regs, kwname, j = cfg
+    kind, adf, regs, kwname, j, ikw = cfg
     net = nets()[j]
-    return ref_key(kind, adf, regs, kwname, net_hash(net)), reference(kind, adf, regs, kwname, net)
+    return ref_key(kind, adf, regs, kwname, net_hash(net), ikw), reference(kind, adf, regs, kwname, net, ikw)
 
 
 def _explain_impedance_no_restore(before, after, diff):
@@ -317,6 +322,8 @@ class Model:
             if len(s.regs[i]) < self.max_regs:
                 out += [["reg", i, f] for f in FUNCS if f not in s.regs[i]]
         for i in range(len(s.insts)):
+            out += [["setkw", i, k] for k in SETKW if k not in s.ikw[i]]
+        for i in range(len(s.insts)):
             for j in (0, 1):
                 out += [["diag", i, j, k] for k in self.kwnames]
         for j in (0, 1):
@@ -332,6 +339,11 @@ class Model:
             s.insts.append(Diagnostic(add_default_functions=op[1]))
             s.adf.append(bool(op[1]))
             s.regs.append([])
+            s.ikw.append([])
+            out = "ok"
+        elif kind == "setkw":
+            s.insts[op[1]].kwargs.update(KW[op[2]])
+            s.ikw[op[1]].append(op[2])
             out = "ok"
         elif kind == "reg":
             s.insts[op[1]].register_function(*_make_function(op[2]))
@@ -351,9 +363,11 @@ class Model:
                 d = s.insts[op[1]]
                 res = _record(d, _call(lambda: d.diagnose_network(net, report_style=REPORT.get(kwname), **kw)))
                 s.last["ref_args"] = ("diag", s.adf[op[1]], list(s.regs[op[1]]), kwname)
+                s.last["ref_ikw"] = list(s.ikw[op[1]])
             else:
                 res = _call(lambda: legacy_diagnostic(net, report_style=None, **kw))
                 s.last["ref_args"] = ("legacy", True, [], kwname)
+                s.last["ref_ikw"] = []
             s.last["result"] = res
             s.last["net_after"] = net_tables(net)
             out = "raised:" + res["raised"] if "raised" in res else "ok"
@@ -377,7 +391,7 @@ class Model:
         # result reads them.
         insts = []
         for i, d in enumerate(s.insts):
-            insts.append({"adf": s.adf[i], "regs": s.regs[i], "kwargs": _args_canon(d.kwargs),
+            insts.append({"adf": s.adf[i], "regs": s.regs[i], "ikw": s.ikw[i], "kwargs": _args_canon(d.kwargs),
                           "functions": _funcs_canon(d._functions),
                           "kwargs_is_module_object": d.kwargs is s.mod["df_args"] or d.kwargs is s.mod["dd_args"],
                           "functions_is_module_object": d._functions is s.mod["df_funcs"] or d._functions is s.mod["dd_funcs"],
@@ -423,7 +437,7 @@ class Model:
                                                            "custom_functions_run": last["ran_custom"]},
                                          tokens=toks, klass="/".join(diff)[:60]))
             kind, adf, regs, kwname = last["ref_args"]
-            ref = reference(kind, adf, regs, kwname, last["net_copy"])
+            ref = reference(kind, adf, regs, kwname, last["net_copy"], last["ref_ikw"])
             got = last["result"]
             if ref != got:
                 where = sorted(k for k in set(ref) | set(got) if ref.get(k) != got.get(k))
@@ -460,6 +474,8 @@ class Model:
                 leaked_kw.update(KW[h[2]])
             elif h[0] == "diag" and ((adf and s.adf[h[1]]) or h[1] == me):
                 leaked_kw.update(KW[h[3]])
+            elif h[0] == "setkw" and ((adf and s.adf[h[1]]) or h[1] == me):
+                leaked_kw.update(KW[h[2]])
             elif h[0] == "reg" and adf and s.adf[h[1]]:
                 leaked_regs.append(h[2])
         if not adf:
